@@ -78,6 +78,17 @@ def families(tier):
         out.append(dict(prop='C15', family='c15.idle.race_after_idle', id=f'c15/race-{warm}-a{n_actor}-{hshape}', cfg=dict(cfg, bound=3 if not deep else 4, cap=6000 if not deep else 60000),
                         params=dict(ps='race', when='after', tmo=None),
                         scn=dict(buses={'A': {}}, order=['A'], handlers=hs, main=main, actors=[actor], forwards=[], settle=2.0)))
+    # an event accepted by A (which has no handler for it, or one) is also offered to B, and B refuses it - B was stopped, or its queue is full
+    # (tiny history, 50 queued): whatever the refusal did to the event, A must still go idle
+    for why, has_handler, order_first in itertools.product(('stopped', 'full'), (False, True), ('A_first', 'B_first')):
+        hs = [dict(bus='B', pat='Y', name='hyB', prog=[('ret', 0)], kind='sync'), dict(bus='B', pat='X', name='hxB', prog=[('ret', 0)]), dict(bus='A', pat='X', name='hxA', prog=[('ret', 0)])]
+        if has_handler:
+            hs.append(dict(bus='A', pat='Q', name='hqA', prog=[('pause',)]))
+        pre = [('disp', 'B', 'X', 'await'), ('stop', 'B', None)] if why == 'stopped' else [('burst', 'B', 'Y', 50)]
+        offer = [('disp', 'A', 'Q', 'ff'), ('redisp', 'B', 'Q')] if order_first == 'A_first' else [('disp', 'B', 'Q', 'ff'), ('redisp', 'A', 'Q')]
+        main = pre + offer + [('idle', 'A')] + ([('idle', 'B')] if why == 'full' else []) + [('disp', 'A', 'X9', 'ff'), ('idle', 'A')]
+        out.append(dict(prop='C15', family='c15.idle.refused_elsewhere', id=f'c15/refused-{why}-h{int(has_handler)}-{order_first}', cfg=cfg, params=dict(ps='refused', when='after', tmo=None),
+                        scn=dict(buses={'A': {}, 'B': dict(hist=5)}, order=['A', 'B'], handlers=hs, main=main, actors=[], forwards=[], settle=2.0, no_watch=True)))
     # the grammar-generated corpus shared by the bus properties (vsched/gen.py), judged by this property's oracle
     from .. import gen
     out += gen.family('C15', tier, params=dict(ps='gen', when='paused', tmo=None), timeouts=(None, 0.5) if tier == 'thorough' else (None,), main_mode='idle', allow_forward=(tier == 'thorough'))
